@@ -9,12 +9,28 @@ BOUNDS = {'scalars': 'bool, i8..i64, u8..u64, f32/f64 (all bit patterns), char: 
           'option': 'Option<T> of each scalar and of String', 'strings': 'String / Vec<u8> of length <= 2 with symbolic (ASCII) content; &str, Cow<str> concrete',
           'wrong_type': 'every (source variant incl. NULL, target type) pair over the 14 default variants', 'tuples': 'arity 1..3 mixed types, 4 / 6 / 12 with i32 members',
           'unwind': 'loops only over the <= 12-element containers; Kani unwinding assertions are on'}
-ASSUME = ['value types behind with-* features (json, chrono, time, decimal, uuid, ...) are outside the claim: their code lives in external crates that are not encoded',
+ASSUME = ['serde_json::Value, BigDecimal, DateTime<Local>, pgvector and arrays of non-i32 elements are outside the claim (CBMC does not finish the JSON / BigDecimal harnesses within 300 s; Local needs the system time zone)',
           'String payloads are ASCII in the harnesses (UTF-8 validity is not the subject); heap values are mem::forget-ed at the end of harnesses']
 
+XBOUNDS = {'feature_types': 'harness crate feature `ext`: Uuid (all 128 bits), rust_decimal::Decimal (all 96-bit mantissas, sign, scale 0..28), chrono NaiveDate (years -9999..9999, every ordinal) / NaiveTime (every second and nanosecond incl. leap) / '
+                            'NaiveDateTime / DateTime<Utc> / DateTime<FixedOffset> (every offset), time Date / Time / PrimitiveDateTime / OffsetDateTime, MacAddress (48 bits), IpNetwork V4 / V6 (every address and prefix), '
+                            'Vec<i32> arrays of length 0..2 with symbolic elements: Value::from, try_from, Option<T>, Nullable::null, as_null, foreign variants rejected both ways'}
+
 def run(ctx, prefix=PREFIX, features=FEATURES, bounds=BOUNDS, assume=ASSUME, keyf=None):
-    ctx.bounds = bounds; ctx.assumptions += assume
-    r = kanidrv.run_kani(prefix, features, jobs=ctx.workers)
+    ctx.bounds = dict(bounds); ctx.assumptions += assume
+    runs = [(prefix, features)]
+    if prefix == PREFIX:
+        runs.append(('c12x_', 'ext')); ctx.bounds.update(XBOUNDS)
+    agg = None
+    for pfx, feat in runs:
+        r1 = kanidrv.run_kani(pfx, feat, jobs=ctx.workers)
+        r1['features_of'] = {n: feat for n in r1['results']}
+        if agg is None: agg = r1
+        else:
+            agg['results'].update(r1['results']); agg['features_of'].update(r1['features_of'])
+            for k in ('total', 'ok', 'failures', 'checks', 'wall', 'covers'): agg[k] += r1[k]
+            agg['covers_ok'] = agg['covers_ok'] and r1['covers_ok']
+    r = agg
     ctx.stats['paths'] = r['ok']; ctx.stats['steps'] = r['checks']; ctx.stats['asserts'] = r['checks']
     ctx.stats['solver_s'] = r['wall']; ctx.stats['queries'] = r['total']
     ctx.families = sorted(r['results'])
@@ -27,6 +43,7 @@ def run(ctx, prefix=PREFIX, features=FEATURES, bounds=BOUNDS, assume=ASSUME, key
     failed = [n for n, s in sorted(r['results'].items()) if s != 'ok']
     for n in failed[3:]: ctx.notes.append('harness %s also failed (counterexample not replayed: only the first three failing harnesses are replayed)' % n)
     for n in failed[:3]:
+        features = r['features_of'].get(n, features)
         rep, gen, log = kanidrv.playback(n, features)
         if rep:
             ctx.validated += 1
